@@ -124,8 +124,23 @@ class UniformRAScramblingMethod(
         """
         dt = data['ra'].dtype
 
-        data['ra'] = rss.random.uniform(
-            *self.ra_range, size=len(data)).astype(dt, copy=False)
+        (ra_min, ra_max) = self.ra_range
+
+        ra = rss.random.uniform(
+            ra_min, ra_max, size=len(data)).astype(dt, copy=False)
+
+        # The conversion to a narrower floating point data type rounds to the
+        # nearest representable value, which can lie outside the half-open
+        # range [ra_min, ra_max), e.g. float32(2pi) > 2pi. Hence, the values
+        # are limited to the representable values inside the range.
+        ra_lo = dt.type(ra_min)
+        if float(ra_lo) < ra_min:
+            ra_lo = np.nextafter(ra_lo, dt.type(np.inf))
+        ra_hi = dt.type(ra_max)
+        if float(ra_hi) >= ra_max:
+            ra_hi = np.nextafter(ra_hi, dt.type(-np.inf))
+
+        data['ra'] = np.clip(ra, ra_lo, ra_hi)
 
         return data
 
